@@ -26,12 +26,141 @@ pub fn book_of(a: &[&str]) -> Result<Spreadsheet, String> {
             let mut rng = Rng::new(seed);
             guard(|| wb::gen_book(&mut rng, &wb::GenOpts::default())).map_err(|_| "generator panicked".to_string())
         }
+        "xml" => {
+            let seed: u64 = a[3].parse().map_err(|_| "seed")?;
+            let mut rng = Rng::new(seed ^ 0x7a67);
+            guard(|| xml_book(&mut rng)).map_err(|_| "generator panicked".to_string())
+        }
         "file" => {
             let path = format!("{}/{}", corpus_dir(), a[3]);
             guard(|| umya_spreadsheet::reader::xlsx::read(std::path::Path::new(&path))).map_err(|_| "read panicked".to_string())?.map_err(|e| format!("{:?}", e))
         }
         _ => Err("bad case".into()),
     }
+}
+
+/// texts for the tag-level serialisation check: XML specials, tab / LF / CR / CR LF, `]]>`, a non-BMP character,
+/// leading and trailing blanks, NBSP, U+2028
+const XML_ALPHABET: &str = "ab Z9&<>\"'\n\t\r,;=é日😀]]>\u{a0}\u{2028}";
+
+/// a workbook that exercises `writer/driver.rs` itself: attribute values (hyperlink tooltips and locations, comment
+/// authors, sheet names, defined names) and texts (cell strings, rich-text runs, formulas, cached results,
+/// comments) over `XML_ALPHABET`; empty elements in both forms (`<c r s/>`, `<v/>`, `<t></t>`, `<f></f>`)
+fn xml_book(rng: &mut Rng) -> Spreadsheet {
+    use umya_spreadsheet::structs::{Comment, Hyperlink, RichText, TextElement};
+    let mut book = umya_spreadsheet::new_file_empty_worksheet();
+    let n_sheets = rng.range(1, 3) as usize;
+    for i in 0..n_sheets {
+        let nm = format!("S{}{}", i, wb::rand_text(rng, "a &<>\"é😀", 0, 5));
+        book.new_sheet(nm).unwrap();
+    }
+    for si in 0..n_sheets {
+        let ws = book.get_sheet_mut(&si).unwrap();
+        let ncells = rng.range(4, 30);
+        for _ in 0..ncells {
+            let (c, r) = (rng.range(1, 7) as u32, rng.range(1, 10) as u32);
+            let cell = ws.get_cell_mut((c, r));
+            match rng.below(10) {
+                0..=2 => {
+                    cell.set_value_string(wb::rand_text(rng, XML_ALPHABET, 1, 12));
+                }
+                3 => {
+                    cell.set_value_string(*rng.pick(&["\r", "a\r\nb", "\r\n", " \t", "]]>", "&amp;", "&#13;", "<![CDATA[x]]>", "😀\r"]));
+                }
+                4 => {
+                    let mut rt = RichText::default();
+                    for _ in 0..rng.range(1, 3) {
+                        let mut te = TextElement::default();
+                        te.set_text(wb::rand_text(rng, XML_ALPHABET, 0, 6));
+                        if rng.chance(1, 2) {
+                            te.get_font_mut().set_bold(true);
+                        }
+                        rt.add_rich_text_elements(te);
+                    }
+                    cell.set_rich_text(rt);
+                }
+                5 => {
+                    cell.set_value_number(rng.range(0, 1000) as f64 / 8.0);
+                }
+                6 => {
+                    cell.set_formula(*rng.pick(&["A1&\"x\"", "IF(A1>1,\"<a&b>\",\"'q'\")", "\"a\"\"b\"&C3", "A1<>B1"]));
+                    // always with a cached result: a formula over an empty string value is the documented
+                    // "formula without cached value" ambiguity (C02_cell_uncached_formula_fails), not the subject here
+                    cell.set_formula_result_default(wb::rand_text(rng, "abc <&>\"'\r", 1, 5));
+                }
+                7 => {
+                    // styled blank: `<c r s/>`
+                    cell.get_style_mut().get_font_mut().set_bold(true);
+                }
+                8 => {
+                    cell.set_value_bool(rng.chance(1, 2));
+                }
+                _ => {
+                    cell.set_value_string("");
+                }
+            }
+            if rng.chance(1, 4) {
+                let mut h = Hyperlink::default();
+                h.set_url(format!("https://example.com/{}", wb::rand_text(rng, "az09<'&\"", 0, 5)));
+                h.set_tooltip(wb::rand_text(rng, XML_ALPHABET, 1, 8));
+                cell.set_hyperlink(h);
+            }
+        }
+        for _ in 0..rng.below(3) {
+            let mut c = Comment::default();
+            c.new_comment((rng.range(1, 6) as u32, rng.range(1, 9) as u32));
+            c.set_author(wb::rand_text(rng, "Ann &<é\"'", 1, 6));
+            c.set_text_string(wb::rand_text(rng, XML_ALPHABET, 1, 8));
+            ws.add_comments(c);
+        }
+    }
+    book
+}
+
+/// the kind of a part, for the evidence counters
+fn part_kind(name: &str) -> String {
+    let base = name.rsplit('/').next().unwrap_or(name);
+    if name == "[Content_Types].xml" {
+        return "content-types".into();
+    }
+    if name.ends_with(".rels") {
+        return "rels".into();
+    }
+    if name.ends_with(".vml") {
+        return "vml".into();
+    }
+    let stem: String = base.trim_end_matches(".xml").chars().filter(|c| !c.is_ascii_digit()).collect();
+    if name.starts_with("docProps/") {
+        return format!("docProps-{}", stem);
+    }
+    stem
+}
+
+/// must the part be a rendering of the tag-level writer model (`Umya/Model/XmlWrite.lean`)?  `Err(reason)` = not claimed.
+/// Parts of a freshly built workbook are all written through `writer/driver.rs`; a workbook that came from a file
+/// carries parts the library copies verbatim (raw sheets of a lazily opened book, drawings, charts, themes, VML, …).
+fn render_claim(case: &str, name: &str) -> Result<(), &'static str> {
+    if name.ends_with(".vml") {
+        return Err("vml-written-raw");
+    }
+    let fresh = case == "gen" || case == "xml" || case == "lazygen";
+    if fresh {
+        return Ok(());
+    }
+    let core = name == "[Content_Types].xml"
+        || name == "_rels/.rels"
+        || name == "xl/workbook.xml"
+        || name == "xl/_rels/workbook.xml.rels"
+        || name == "xl/styles.xml"
+        || name == "xl/sharedStrings.xml"
+        || name.starts_with("docProps/");
+    if core {
+        return Ok(());
+    }
+    if case == "file" && name.starts_with("xl/worksheets/sheet") && name.ends_with(".xml") {
+        return Ok(());
+    }
+    Err("loaded-file-part")
 }
 
 /// the in-memory workbook as cells of the writer model (`Umya/Model/CellXml.lean`), in the format of C01's
@@ -141,10 +270,34 @@ pub fn run_case(out: &mut Out, header: &str) {
     out.count_n("parts", parts.len() as u64);
     for (name, data) in &parts {
         let isx = wb::is_xml_part(name);
-        let line = format!("c02 part {} {} {}", hex(name), if isx { 1 } else { 0 }, hexb(data));
+        if !isx {
+            let line = format!("c02 part {} 0 {}", hex(name), hexb(data));
+            out.begin(&line);
+            out.end(&line, "ok", true);
+            continue;
+        }
+        // the implementation's claims: every XML part it writes is well-formed, and every part written through
+        // writer/driver.rs is, character for character, a rendering of the tag-level writer model
+        let claim = render_claim(a[2], name);
+        let line = format!("c02 part {} 1 {} {}", hex(name), hexb(data), if claim.is_ok() { "w" } else { "r" });
         out.begin(&line);
-        // the implementation's claim: every XML part it writes is well-formed
-        out.end(&line, "ok", true);
+        match claim {
+            Ok(()) => {
+                out.count(&format!("render.claimed.{}", part_kind(name)));
+                // what the claimed bytes exercise (parts containing the marker)
+                for (m, key) in [("&#13;", "cr-ref"), ("&#9;", "tab-ref"), ("&#10;", "lf-ref"), ("&quot;", "quot"), ("&apos;", "apos"), ("&amp;", "amp"),
+                    ("&lt;", "lt"), ("]]&gt;", "cdata-end"), ("></", "start-end-childless"), ("/>", "empty-element"), ("\u{1F600}", "non-bmp")] {
+                    if data.windows(m.len()).any(|w| w == m.as_bytes()) {
+                        out.count(&format!("render.bytes.{}", key));
+                    }
+                }
+                out.end(&line, "ok render=same", true);
+            }
+            Err(why) => {
+                out.count(&format!("render.skipped.{}.{}", why, part_kind(name)));
+                out.end(&line, "ok render=skipped", true);
+            }
+        }
     }
     let line = "c02 decode".to_string();
     out.begin(&line);
@@ -157,7 +310,7 @@ pub fn run_case(out: &mut Out, header: &str) {
     // the claim is that the driver finds the rendering of the facts equal to what its XML reader parsed
     match guard(|| crate::c01::package_facts(&bytes, book.get_sheet_count())) {
         Ok(Ok(facts)) => {
-            let model = if a[2] == "gen" { guard(|| model_dump(&book)).unwrap_or("~".into()) } else { "~".to_string() };
+            let model = if a[2] == "gen" || a[2] == "xml" { guard(|| model_dump(&book)).unwrap_or("~".into()) } else { "~".to_string() };
             out.count(if model == "~" { "bridge.facts-only" } else { "bridge.with-model" });
             let line = format!("c02 bridge {} model={}", facts, model);
             out.begin(&line);
@@ -188,6 +341,11 @@ pub fn gen(tier: Tier, seed: u64) -> Vec<String> {
         if tier == Tier::Thorough || i % 6 == 1 {
             v.push(format!("c02 reset lazyfile {} {}", f, if i % 2 == 1 { "light" } else { "std" }));
         }
+    }
+    // workbooks aimed at the tag-level serialisation (attribute values and texts with XML specials, tab / LF / CR)
+    let n = if tier == Tier::Thorough { 600 } else { 40 };
+    for i in 0..n {
+        v.push(format!("c02 reset xml {} {}", rng.next() % 1_000_000_007, if i % 4 == 3 { "light" } else { "std" }));
     }
     v
 }
